@@ -1,4 +1,4 @@
-\* generation: every transition over the scripted tree T3 with one observer and one restart, printed once
+\* AS CODED, expected counterexample (NoForkBelowLib): tree T3 with one restart: a block numbered below the LIB is accepted right after a restart
 SPECIFICATION Spec
 CONSTANTS
   N = 3
@@ -11,5 +11,5 @@ CONSTANTS
   ByzRanges <- R123
   Fixes <- NoFix
 VIEW view
-ACTION_CONSTRAINT GenLog
+PROPERTIES NoForkBelowLib
 CHECK_DEADLOCK FALSE
